@@ -2,7 +2,9 @@ package props
 
 import (
 	"fmt"
+	"io/ioutil"
 	"math"
+	"os"
 	"path/filepath"
 	"sort"
 	"strconv"
@@ -32,7 +34,7 @@ func (c18) Meta() fw.Meta {
 		Assumptions: []string{
 			"view reads the wall clock: the run is accepted only when the second did not change across the process (stable second); discarded runs are counted",
 		},
-		Obligations: []string{"view_runs", "view_raw_runs", "view_records_checked", "raw_records_checked", "header_checked", "no_header_checked", "sorted_raw", "unsorted_raw", "special_values_printed", "inf_printed", "stale_lap_in_raw", "degenerate_window", "single_archive_selection", "cross_relation_checked", "non_default_tz_runs", "slots_stamped_ahead_of_clock", "slots_stamped_beyond_2_31", "two_runs_one_textout_file"},
+		Obligations: []string{"view_runs", "view_raw_runs", "view_records_checked", "raw_records_checked", "header_checked", "no_header_checked", "sorted_raw", "unsorted_raw", "special_values_printed", "inf_printed", "stale_lap_in_raw", "degenerate_window", "single_archive_selection", "cross_relation_checked", "non_default_tz_runs", "slots_stamped_ahead_of_clock", "slots_stamped_beyond_2_31", "two_runs_one_textout_file", "files_with_empty_first_slot", "remote_runs_with_concurrent_clients"},
 		Workers:     12,
 	}
 }
@@ -53,6 +55,10 @@ func (c18) Run(c *fw.Ctx) {
 	r := c.Rng
 	dir := c.TmpDir()
 	l := cliLayout(r)
+	remote := c.Index%8 == 5 // through the single-threaded server with delayed socket writes, other clients active
+	if remote {
+		l = model.Layout{Archs: []model.Arch{{Step: 1, Points: uint32(1500 + r.Intn(2500))}, {Step: 60, Points: uint32(100 + r.Intn(300))}}, Method: 1 + r.Intn(6)}
+	}
 	l.Xff = 0
 	wnow := time.Now().Unix()
 	path := filepath.Join(dir, "v", "file.wsp")
@@ -139,6 +145,21 @@ func (c18) Run(c *fw.Ctx) {
 	}
 	db.Sync()
 	db.Close()
+	if c.Index%7 == 4 {
+		// a file whose first slot of an archive is empty although later slots hold points (a hole punched into it, or
+		// another writer's placement): view-raw shows physical slots, whatever they hold
+		if img := readFileOrNil(path); img != nil {
+			ai := r.Intn(len(l.Archs))
+			off := l.Offsets()[ai]
+			for k := int64(0); k < 12; k++ {
+				img[off+k] = 0
+			}
+			if err := ioutil.WriteFile(path, img, 0644); err != nil {
+				panic(err)
+			}
+			c.Count("files_with_empty_first_slot", 1)
+		}
+	}
 	_, raw, _, err := rawOfFile(path)
 	if err != nil {
 		panic(err)
@@ -194,13 +215,37 @@ func (c18) Run(c *fw.Ctx) {
 		c.Count("non_default_tz_runs", 1)
 	}
 	flags := []string{"-src-base", filepath.Dir(path), "-src", "file.wsp", "-archive", strconv.Itoa(sel), fmt.Sprintf("-header=%v", header)}
+	noiseBase, noiseFiles := "", []string(nil)
+	if remote {
+		if u, served, ok := workerServer1P(c); ok {
+			name := fmt.Sprintf("c18-%d", c.Index)
+			link := filepath.Join(served, name)
+			os.Symlink(filepath.Dir(path), link)
+			defer os.Remove(link)
+			for _, n := range []string{"n1.wsp", "n2.wsp"} {
+				writeFixture(filepath.Join(filepath.Dir(path), n), l, genContent(r, l, wnow, 0.9), wnow)
+				noiseFiles = append(noiseFiles, filepath.Join(name, n))
+			}
+			noiseFiles = append(noiseFiles, filepath.Join(name, "file.wsp"))
+			noiseBase = u
+			flags[1], flags[3] = u, filepath.Join(name, "file.wsp")
+			c.Count("remote_runs_with_concurrent_clients", 1)
+		}
+	}
+	stable := func(args ...string) (res cliResult, ok bool) {
+		if noiseBase == "" {
+			return runCLIStable(c, nil, args...)
+		}
+		withServerNoise(c, noiseBase, noiseFiles, func() { res, ok = runCLIStable(c, nil, args...) })
+		return
+	}
 	if window != "default" {
 		flags = append(flags, "-from", tsArg(from), "-until", tsArg(until))
 	}
 	sc := fw.J{"layout": l.String(), "archive": sel, "header": header, "sort": sorted, "window": window, "from": from, "until": until, "never_written_archive": neverWritten, "tz": zone, "future_stamped_slots": future}
 
 	// ---- view
-	res, ok := runCLIStable(c, nil, append([]string{"view"}, flags...)...)
+	res, ok := stable(append([]string{"view"}, flags...)...)
 	if !ok {
 		c.Count("skipped_no_stable_second", 1)
 		return
@@ -262,7 +307,7 @@ func (c18) Run(c *fw.Ctx) {
 	if sorted {
 		rflags = append(rflags, "-sort")
 	}
-	rres, ok := runCLIStable(c, nil, rflags...)
+	rres, ok := stable(rflags...)
 	if !ok {
 		c.Count("skipped_no_stable_second", 1)
 		return
